@@ -3,7 +3,8 @@
  * The REAL jdf_sanity_check_flows_and_deps_number (jdf.c, static, reached by #include) runs on a
  * SYMBOLIC abstract syntax tree built directly: one task class with nflows in 0..NF flows, every
  * flow with symbolic type (CTL | READ | WRITE | READ+WRITE = RW, the four types the grammar
- * produces) and a symbolic number 0..ND of dependencies, each either an input or an output one.
+ * produces); the first NDF flows carry a symbolic number 0..ND of dependencies, each either an
+ * input or an output one (the per-flow clause does not depend on which flow it is).
  * Oracle: rc < 0  <=>  #READ-capable flows, #WRITE-capable flows or the TOTAL number of flows
  * exceed MAX_PARAM_COUNT, or some flow has more than MAX_DEP_IN_COUNT input / MAX_DEP_OUT_COUNT
  * output dependencies.  (The total matters: the generated task structure holds one
@@ -11,21 +12,49 @@
  * "#error Too many flows" when it does not fit.)
  */
 #include "vp_harness.h"
+#include <stdio.h>
+#include <stdarg.h>
 const char *yyfilename = "symbolic-ast";
+#ifndef VP_NATIVE
+/* jdf_warn/jdf_fatal format their diagnostic into a 512-byte buffer and print it: the text is not
+ * part of the verdict, the two libc calls are made empty for the solver (real in the native replay) */
+#define vsnprintf(buf, n, fmt, ap) ((void)(buf), (void)(ap), 0)
+#define fprintf(...) 0
+#endif
 #include "parsec/interfaces/ptg/ptg-compiler/jdf.c"
+#ifndef VP_NATIVE
+#undef vsnprintf
+#undef fprintf
+#endif
 #include "jdf2c.h"
 jdf_compiler_global_args_t JDF_COMPILER_GLOBAL_ARGS;
 
 #ifndef NF
-#define NF 24
+#define NF 23          /* flows (MAX_PARAM_COUNT + 3) */
+#endif
+#ifndef NDF
+#define NDF 2          /* flows that carry a symbolic dependency list (the per-flow clause is independent of the flow) */
 #endif
 #ifndef ND
-#define ND 12
+#define ND 12          /* dependencies per such flow (MAX_DEP_*_COUNT + 2) */
 #endif
 
 static jdf_function_entry_t fn;
-static jdf_dataflow_t fl[NF];
-static jdf_dep_t dp[NF][ND];
+/* every AST node is its own static object, reached through constant pointer tables (a pointer
+ * into an ARRAY of these large structs costs a division circuit per dereference) */
+#define F(i) static jdf_dataflow_t fl_##i;
+F(0) F(1) F(2) F(3) F(4) F(5) F(6) F(7) F(8) F(9) F(10) F(11) F(12) F(13) F(14) F(15) F(16) F(17) F(18) F(19) F(20) F(21) F(22)
+#undef F
+static jdf_dataflow_t *const fl[23] = { &fl_0, &fl_1, &fl_2, &fl_3, &fl_4, &fl_5, &fl_6, &fl_7, &fl_8, &fl_9, &fl_10, &fl_11, &fl_12,
+    &fl_13, &fl_14, &fl_15, &fl_16, &fl_17, &fl_18, &fl_19, &fl_20, &fl_21, &fl_22 };
+#define D(f, i) static jdf_dep_t dp_##f##_##i;
+D(0,0) D(0,1) D(0,2) D(0,3) D(0,4) D(0,5) D(0,6) D(0,7) D(0,8) D(0,9) D(0,10) D(0,11)
+D(1,0) D(1,1) D(1,2) D(1,3) D(1,4) D(1,5) D(1,6) D(1,7) D(1,8) D(1,9) D(1,10) D(1,11)
+#undef D
+static jdf_dep_t *const dpt[2][12] = {
+    { &dp_0_0, &dp_0_1, &dp_0_2, &dp_0_3, &dp_0_4, &dp_0_5, &dp_0_6, &dp_0_7, &dp_0_8, &dp_0_9, &dp_0_10, &dp_0_11 },
+    { &dp_1_0, &dp_1_1, &dp_1_2, &dp_1_3, &dp_1_4, &dp_1_5, &dp_1_6, &dp_1_7, &dp_1_8, &dp_1_9, &dp_1_10, &dp_1_11 } };
+_Static_assert(NF <= 23 && NDF <= 2 && ND <= 12, "object tables");
 static char fname[] = "T", vname[] = "F";
 
 int main(void)
@@ -36,16 +65,20 @@ int main(void)
         int ty = IN_RANGE(0, 3);
         jdf_flow_flags_t ff = ty == 0 ? JDF_FLOW_TYPE_CTL : ty == 1 ? JDF_FLOW_TYPE_READ
                             : ty == 2 ? JDF_FLOW_TYPE_WRITE : (JDF_FLOW_TYPE_READ | JDF_FLOW_TYPE_WRITE);
-        int ndeps = IN_RANGE(0, ND), din = 0, dout = 0;
-        fl[i].flow_flags = ff;
-        fl[i].varname = vname;
-        fl[i].next = (i + 1 < nflows) ? &fl[i + 1] : NULL;
-        fl[i].deps = (ndeps > 0) ? &dp[i][0] : NULL;
-        for (int d = 0; d < ND; d++) {
-            _Bool isin = IN_BOOL();
-            dp[i][d].dep_flags = isin ? JDF_DEP_FLOW_IN : JDF_DEP_FLOW_OUT;
-            dp[i][d].next = (d + 1 < ndeps) ? &dp[i][d + 1] : NULL;
-            if (d < ndeps) { if (isin) din++; else dout++; }
+        int din = 0, dout = 0;
+        fl[i]->flow_flags = ff;
+        fl[i]->varname = vname;
+        fl[i]->next = (i + 1 < NF && i + 1 < nflows) ? fl[i + 1] : NULL;
+        fl[i]->deps = NULL;
+        if (i < NDF) {
+            int ndeps = IN_RANGE(0, ND);
+            fl[i]->deps = (ndeps > 0) ? dpt[i][0] : NULL;
+            for (int d = 0; d < ND; d++) {
+                _Bool isin = IN_BOOL();
+                dpt[i][d]->dep_flags = isin ? JDF_DEP_FLOW_IN : JDF_DEP_FLOW_OUT;
+                dpt[i][d]->next = (d + 1 < ND && d + 1 < ndeps) ? dpt[i][d + 1] : NULL;
+                if (d < ndeps) { if (isin) din++; else dout++; }
+            }
         }
         if (i < nflows) {
             if (ff & JDF_FLOW_TYPE_READ) n_read++;
@@ -54,7 +87,7 @@ int main(void)
         }
     }
     fn.fname = fname;
-    fn.dataflow = nflows > 0 ? &fl[0] : NULL;
+    fn.dataflow = nflows > 0 ? fl[0] : NULL;
     fn.next = NULL;
     current_jdf.functions = &fn;
 
@@ -71,7 +104,9 @@ int main(void)
     VASSERTM((rc < 0) == (over_rw || over_total),
              "program is rejected iff its READ flows, WRITE flows, total flows or per-flow in/out dependencies exceed the runtime limits");
     if (!(over_rw || over_total)) VASSERTM(rc == 0, "a program within the limits passes this check with rc 0");
-#ifdef WITNESS
+#if defined(WITNESS) && defined(KF_ONLY_C24_TOTAL_FLOWS)
+    VWITNESS("restricted to the recorded failing class: total flows over the limit, READ and WRITE counts within");
+#elif defined(WITNESS)
     if (nflows == MAX_PARAM_COUNT && n_read >= 5 && n_write >= 5 && rc == 0) VWITNESS("accepted: exactly MAX_PARAM_COUNT flows of mixed types");
     if (n_read > MAX_PARAM_COUNT && rc < 0) VWITNESS("rejected: too many READ flows");
     if (too_many_deps && n_read <= MAX_PARAM_COUNT && n_write <= MAX_PARAM_COUNT && rc < 0) VWITNESS("rejected: a flow with too many dependencies");
